@@ -195,8 +195,16 @@ def main():
                 jobs.append((sub, pos, {p.name: False}))
             # free-text keywords additionally get the empty string, a falsy-looking text, text with a space and a
             # non-ASCII letter, and texts that look like Python keywords (truthiness / str() slips in the wrapper)
-            free_text = "str" in str(p.annotation) and "bool" not in str(p.annotation) and not (clap_arg(sub, long_of(p.name)) or {}).get("possible_values") and p.name not in ("repo_path", "stdin", "source")
+            # (decided from the command line's own metadata and the sample values, not from the wrapper's annotations)
+            ca = clap_arg(sub, long_of(p.name)) or {}
+            free_text = bool(ca.get("takes_value")) and not ca.get("possible_values") and all(isinstance(v, str) for v in vals[p.name]) and p.name not in ("repo_path", "stdin", "source")
             extras = ["", "0", "é x", "None", "False"] if free_text else []
+            if free_text:
+                # every ASCII punctuation / white-space character inside an otherwise ordinary value (a wrapper that splits, joins,
+                # quotes or escapes values shows up on one of them), and values that look like options
+                import string
+                base = str(vals[p.name][0]) or "x"
+                extras += [f"{base}{ch}{base}" for ch in string.punctuation + " \t\n"] + ["-x", "--help", "-", "--"]
             for v in list(vals[p.name]) + extras:
                 kw = {p.name: v}
                 if p.name == "stdin":
